@@ -1670,9 +1670,16 @@ func wireKeys(d *spec.Design, raw json.RawMessage, u *spec.UserType, view string
 // wireKeysOf applies wireKeys to the body of a result-type method, element by element for a collection.
 func wireKeysOf(d *spec.Design, m *spec.Method, raw json.RawMessage, u *spec.UserType, view string, sent any) []string {
 	if !m.Collection {
-		if hs := m.Responses[0].Headers; len(hs) > 0 {
-			// attributes this method carries in response headers are no part of its body: judged against a copy of
-			// the type (and of the value) without them; the headers themselves are judged by the caller
+		hs := map[string]string{}
+		for a, n := range m.Responses[0].Headers {
+			hs[a] = n
+		}
+		for a, n := range m.Responses[0].Cookies {
+			hs[a] = n
+		}
+		if len(hs) > 0 {
+			// attributes this method carries in response headers or cookies are no part of its body: judged against
+			// a copy of the type (and of the value) without them; the headers themselves are judged by the caller
 			cu := *u
 			ca := *u.Attr
 			ct := *u.Attr.Type
@@ -1798,6 +1805,28 @@ func judgeView(o *engine.Outcome, w *world, d *spec.Design, s *spec.Service, m *
 			o.Violate("view_wire", "view_wire:header:"+sig, "%s: view %q contains %q (=%s), which this method carries in header %s: the header is %q", where, rendered, attr, gen.Show(so[attr]), hn, hv)
 		case !inView && present && len(hv) > 0 && hv[0] != "":
 			o.Violate("view_wire", "view_wire:header-outside-view:"+sig, "%s: view %q does not contain %q, yet its header %s went out as %q", where, rendered, attr, hn, hv)
+		}
+	}
+	for attr, cn := range m.Responses[0].Cookies {
+		so, _ := sent.(map[string]any)
+		inView := false
+		if vw := gen.ViewOf(u, rendered); vw != nil {
+			for _, fn := range vw.Fields {
+				inView = inView || fn == attr
+			}
+		}
+		got, present := "", false
+		for _, c := range (&http.Response{Header: ex.RespHeader}).Cookies() {
+			if c.Name == cn {
+				got, present = c.Value, true
+			}
+		}
+		o.Features["c08_cookie_mapped_attribute_checked"]++
+		switch {
+		case inView && so[attr] != nil && (!present || !textEq(spec.String, got, so[attr])):
+			o.Violate("view_wire", "view_wire:cookie:"+sig, "%s: view %q contains %q (=%s), which this method carries in cookie %s: Set-Cookie is %q", where, rendered, attr, gen.Show(so[attr]), cn, ex.RespHeader["Set-Cookie"])
+		case !inView && present && got != "":
+			o.Violate("view_wire", "view_wire:cookie-outside-view:"+sig, "%s: view %q does not contain %q, yet its cookie %s went out as %q", where, rendered, attr, cn, got)
 		}
 	}
 	// ---- what the client rebuilt
